@@ -52,9 +52,9 @@ Section Inv.
   Lemma frame_set_index l v k l' : set_index l v k = Some l' -> frame l l'.
   Proof.
     unfold set_index. destruct (_ && _); [|discriminate]. intros E; injection E as <-.
-    match goal with |- frame l (mkL (surfs ?l2) _ _ _ _ _ _ _) => assert (F : frame l l2) end.
-    { eapply frame_trans; [apply frame_upd_surf|apply frame_upd_surf]; reflexivity. }
-    destruct F as (F1 & F2 & F3 & F4). unfold frame; cbn [surfs waves prims ap]. repeat split; assumption.
+    unfold frame; cbn [surfs waves prims ap]. repeat split.
+    rewrite (map_enumZ_preserve _ s_stop s_stop) by (intros j x; destruct (j =? k + 1)%Z; reflexivity).
+    apply map_enumZ_preserve. intros j x; destruct (j =? k)%Z; reflexivity.
   Qed.
   Lemma frame_set_asphere_coeff l v k j l' : set_asphere_coeff l v k j = Some l' -> frame l l'.
   Proof.
@@ -135,9 +135,9 @@ Section Inv.
     (count_true (stops l) <= 1)%nat -> (count_true (stops l') <= 1)%nat.
   Proof.
     unfold add_surface. destruct (_ || _); [discriminate|].
+    destruct (cfg_material l _ _) as [[[pre post] mats']|]; [|discriminate].
     destruct (k_c01_cfg_cs _ _ _ _ _ _ _ _ _) as [[[[x y] z] rx'] ry'].
-    match goal with |- context [match ?pm with Some _ => _ | None => None end] => destruct pm as [[post mats']|]; [|discriminate] end.
-    match goal with |- context [let '(_, _, _, _) := ?g in _] => destruct g as [[[g R'] k'] c'] end.
+    destruct (cfg_geometry _ _ _ _) as [[[g R'] k'] c'].
     intros E; injection E as <-. intros H. unfold stops in *. cbn [surfs].
     rewrite map_insert. rewrite count_insert. cbn [s_stop].
     destruct (if (idx =? 0)%Z then false else st) eqn:Es.
@@ -192,22 +192,22 @@ Section Inv.
     run l ops = Some l' -> (count_true (stops l) <= 1)%nat -> (count_true (stops l') <= 1)%nat.
   Proof. apply (run_inv (fun l => (count_true (stops l) <= 1)%nat)). apply step_stop_invariant. Qed.
 
-  Corollary at_most_one_stop_from_empty a ops l' :
+  Corollary at_most_one_stop_from_empty a ops (l' : lens) :
     run (empty_lens a) ops = Some l' -> (count_true (stops l') <= 1)%nat.
   Proof. intros E. eapply at_most_one_stop; [exact E|]. cbn. lia. Qed.
 
   (** ** exactly one primary wavelength *)
   Definition waves_ok (l : lens) : Prop :=
-    length (waves l) = length (prims l) /\ (prims l = [] \/ count_true (prims l) = 1%nat).
+    List.length (waves l) = List.length (prims l) /\ (prims l = [] \/ count_true (prims l) = 1%nat).
 
   Lemma count_app a b : count_true (a ++ b) = (count_true a + count_true b)%nat.
   Proof. induction a; simpl; auto. rewrite IHa. lia. Qed.
 
   (** the regenerated WavelengthGroup.add_wavelength keeps the invariant *)
   Lemma add_wavelength_kernel v prim u ps ws vals ps' :
-    length ws = length ps -> (ps = [] \/ count_true ps = 1%nat) ->
-    k_c01_add_wavelength O v prim u (Z.of_nat (length ws)) ps (Z.of_nat (length ws)) ws = (vals, ps') ->
-    length vals = length ps' /\ count_true ps' = 1%nat /\ vals = ws ++ [v].
+    List.length ws = List.length ps -> (ps = [] \/ count_true ps = 1%nat) ->
+    k_c01_add_wavelength O v prim u (Z.of_nat (List.length ws)) ps (Z.of_nat (List.length ws)) ws = (vals, ps') ->
+    List.length vals = List.length ps' /\ count_true ps' = 1%nat /\ vals = ws ++ [v].
   Proof.
     intros HL HC. unfold k_c01_add_wavelength. intros E. injection E as <- <-.
     split; [|split; [|reflexivity]].
@@ -216,8 +216,8 @@ Section Inv.
       + rewrite HL. reflexivity.
     - rewrite count_app. cbn [count_true]. destruct prim.
       + unfold rangeZ. rewrite count_all_false.
-        destruct (Z.of_nat (length ws) =? 0)%Z; reflexivity.
-      + destruct (Z.eqb_spec (Z.of_nat (length ws)) 0) as [E0|E0].
+        destruct (Z.of_nat (List.length ws) =? 0)%Z; reflexivity.
+      + destruct (Z.eqb_spec (Z.of_nat (List.length ws)) 0) as [E0|E0].
         * destruct ps; [reflexivity|]. simpl in HL. lia.
         * destruct HC as [->|HC]; [simpl in HL; lia|]. rewrite HC. reflexivity.
   Qed.
@@ -228,9 +228,9 @@ Section Inv.
     { intros a b (_ & F2 & F3 & _). unfold waves_ok. rewrite F2, F3. auto. }
     destruct o; cbn [step].
     - unfold add_surface. destruct (_ || _); [discriminate|].
+      destruct (cfg_material l _ _) as [[[pre post] mats']|]; [|discriminate].
       destruct (k_c01_cfg_cs _ _ _ _ _ _ _ _ _) as [[[[x y] z] rx'] ry'].
-      match goal with |- context [match ?pm with Some _ => _ | None => None end] => destruct pm as [[post mats']|]; [|discriminate] end.
-      match goal with |- context [let '(_, _, _, _) := ?g in _] => destruct g as [[[g R'] k'] c'] end.
+      destruct (cfg_geometry _ _ _ _) as [[[g R'] k'] c'].
       intros E; injection E as <-. auto.
     - unfold remove_surface. destruct (_ && _); [|discriminate]. intros E; injection E as <-. auto.
     - intros E; apply FR; eapply frame_set_radius; eassumption.
@@ -252,7 +252,7 @@ Section Inv.
   Qed.
 
   (** Exactly one wavelength is primary after any history that added at least one wavelength *)
-  Theorem exactly_one_primary ops a l' :
+  Theorem exactly_one_primary ops a (l' : lens) :
     run (empty_lens a) ops = Some l' -> prims l' <> [] -> count_true (prims l') = 1%nat.
   Proof.
     intros E NE.
